@@ -74,7 +74,7 @@ for _pid, _f, _key in (("C12", "notes/c12_proposals.json", "manifest_check"), ("
         CHECKS[_pid] = dict(text=_e["text"], note=_e["note"], design=_e.get("design", "7/" + _pid), technique=_e["technique"])
     except Exception as _ex:
         pass
-PENDING = {"C08"}   # merged but temporarily not claimed (model being updated to the new LZF stream order)
+PENDING = set()   # merged but temporarily not claimed (model being updated to the new LZF stream order)
 for _p in PENDING:
     CHECKS.pop(_p, None)
 NOT_APPLICABLE = []
